@@ -652,9 +652,9 @@ static void dumpGraphRaw(Router *router, ConnRef *conn) {
 static void kernelAStar(long k, vh::Rng r, int n) {
     vh::beginCase(k, "astar-kernels");
     Router *router = new Router(OrthogonalRouting);
-    const double pens[4] = {10, 50, 200, 0};
+    const double pens[6] = {10, 50, 200, 0, 2.5, 0.75};
     for (int i = 0; i < n; ++i) {
-        double pen = pens[r.range(0, 3)];
+        double pen = pens[r.range(0, 5)];
         double rev = r.coin(1, 3) ? (double) r.range(1, 9) : 0.0;
         router->setRoutingParameter(segmentPenalty, pen);
         router->setRoutingParameter(reverseDirectionPenalty, rev);
